@@ -549,7 +549,16 @@ pub fn pred_c12(c: &BodyCase, r: &Ran) -> String {
                 p.lower, i, suffix[i]
             );
         }
-        if p.eos && c.honest {
+        // The property's proviso (an entity that honours its contract) covers streams of the wrong
+        // length: once the body itself has found the stream too long or too short, or has
+        // delivered every announced byte, nothing is claimed. A stream that merely reported an
+        // error has broken no length contract: while announced bytes are still owed and the body has
+        // given no such verdict, "end of stream" followed by data or an error is a lie.
+        let owed = announced(r).map_or(false, |a| {
+            let before: u64 = r.recs[..i].iter().map(|x| if let Out::Data(d) = &x.out { d.len() as u64 } else { 0 }).sum();
+            before < a
+        }) && !r.recs[..i].iter().any(|x| matches!(x.out, Out::ErrShort(_) | Out::ErrLong(_)));
+        if p.eos && (c.honest || owed) {
             for l in &r.recs[i..] {
                 // an empty frame or Pending delivers neither data nor an error
                 let harmless = matches!(&l.out, Out::End | Out::Pending)
@@ -836,6 +845,8 @@ pub fn c01(em: &mut Emit, thorough: bool, seed: u64) {
     for c in fault_cases(&mut rng, false).into_iter().step_by(3) {
         run_case(em, &c, &pred_c01);
     }
+    // multipart bodies around 2^64 bytes: the announced length is the layout's, or the answer is 413
+    c06_huge(em, &mut rng, if thorough { 5_000 } else { 500 });
     // the response head: Content-Length against the model for astronomically large entities
     for len in [0u64, 1, 65535, 65536, 1 << 32, 1 << 63, u64::MAX] {
         for range in [None, Some(&b"bytes=0-"[..]), Some(b"bytes=1-"), Some(b"bytes=-1")] {
@@ -951,9 +962,13 @@ pub fn c06(em: &mut Emit, thorough: bool, seed: u64) {
         e.headers = (0..nh)
             .map(|k| {
                 let vlen = *rng.pick(&[0usize, 1, 7, 60, 300]);
+                // every third value carries obs-text (bytes that are not UTF-8), as a Latin-1
+                // file name in Content-Disposition would
                 (
                     names[k].to_string(),
-                    (0..vlen).map(|j| b'a' + ((j + k) % 26) as u8).collect(),
+                    (0..vlen)
+                        .map(|j| if (i + k) % 3 == 0 && j % 4 == 3 { [0xe9u8, 0xff, 0x80, 0xc3][(j / 4) % 4] } else { b'a' + ((j + k) % 26) as u8 })
+                        .collect(),
                 )
             })
             .collect();
